@@ -39,6 +39,10 @@ def walk(b):
     ty = int.from_bytes(b[0:2], "big")
     cls = ((ty >> 4) & 1) | ((ty >> 7) & 2)
     end = 20 + int.from_bytes(b[2:4], "big")
+    if len(b) - 20 > 0xFFFF:
+        # a message handed to send() with more attribute bytes than the 16-bit length field can express
+        # (the builder serialises it, the field wraps): its attributes are what the buffer holds
+        end = len(b)
     off, attrs = 20, []
     while off + 4 <= end and end <= len(b):
         t = int.from_bytes(b[off:off + 2], "big")
